@@ -33,10 +33,13 @@
 (*   4  `::` has its own precedence class between unary and `*`            *)
 (*      (pinned tree: the class of + and -)                                *)
 (*   5  a `"` inside a string literal is printed as `\"` (pinned: raw)     *)
+(*   6  the left operand of `<` is parenthesised when it ends with a field *)
+(*      name: after `e.name` the parser reads `<` as the start of explicit *)
+(*      type arguments (pinned tree: no such rule)                         *)
 (***************************************************************************)
 EXTENDS Integers, Sequences, FiniteSets, TLC
 
-CONSTANTS Fixes,      \* SUBSET {2, 3, 4, 5}
+CONSTANTS Fixes,      \* SUBSET {2, 3, 4, 5, 6}
           AtomSet,    \* SUBSET AllAtomNames: leaves to build trees from
           BinOps,     \* SUBSET AllBinOps
           UnOps,      \* SUBSET {"!", "-"}
@@ -156,6 +159,13 @@ Shortcut(t) ==
   IF 2 \in Fixes
   THEN /\ t.r.k = "bin" /\ t.r.op = t.op /\ Prec(t.r.l) # Prec(t) /\ t.op \in Assoc
   ELSE /\ Prec(t.r) = Prec(t) /\ t.op \notin {"-", "/", "%"}
+\* ends_with_field_name (revision 6)
+RECURSIVE EndsWithFieldName(_)
+EndsWithFieldName(t) ==
+  CASE t.k = "field" -> t.targs = <<>>
+    [] t.k = "un"  -> EndsWithFieldName(t.e)
+    [] t.k = "bin" -> EndsWithFieldName(t.r)
+    [] OTHER -> FALSE
 Prt(t) ==
   CASE t.k = "id"  -> <<t.n>>
     [] t.k = "int" -> <<t.v>>
@@ -164,7 +174,9 @@ Prt(t) ==
     [] t.k \in {"field", "call"} -> Chain(t, t)
     [] t.k = "un"  -> <<t.op>> \o Sub(t, t.e, 3 \in Fixes)
     [] t.k = "bin" ->
-         IF Prec(t.l) = Prec(t) THEN Prt(t.l) \o <<t.op>> \o Sub(t, t.r, TRUE)
+         IF 6 \in Fixes /\ t.op = "<" /\ EndsWithFieldName(t.l)
+         THEN Paren(Prt(t.l)) \o <<t.op>> \o Sub(t, t.r, TRUE)
+         ELSE IF Prec(t.l) = Prec(t) THEN Prt(t.l) \o <<t.op>> \o Sub(t, t.r, TRUE)
          ELSE IF Shortcut(t) THEN Sub(t, t.l, TRUE) \o <<t.op>> \o Prt(t.r)
          ELSE Sub(t, t.l, TRUE) \o <<t.op>> \o Sub(t, t.r, TRUE)
     [] t.k = "if" -> PrtIf(t)
@@ -276,7 +288,11 @@ PBase(ts, i) ==
 \* parse_function_call_or_field_access_with_start
 PPostLoop(e, ts, i) ==
   IF Tok(ts, i) = "." THEN
-    IF Tok(ts, i + 1) \in LowerIds \cup UpperIds THEN PPostLoop(Field(e, Tok(ts, i + 1)), ts, i + 2) ELSE Err
+    IF Tok(ts, i + 1) \in LowerIds \cup UpperIds THEN
+      \* type_parser::parse_optional_type_arguments: a `<` right after the field name starts explicit
+      \* type arguments; this token alphabet contains no types, so that attempt always fails
+      IF Tok(ts, i + 2) = "<" THEN Err ELSE PPostLoop(Field(e, Tok(ts, i + 1)), ts, i + 2)
+    ELSE Err
   ELSE IF Tok(ts, i) = "(" THEN
     LET l == PList(ts, i + 1, <<>>) IN IF IsErr(l) THEN Err ELSE PPostLoop(Call(e, l.t), ts, l.i)
   ELSE R(e, i)
